@@ -322,10 +322,21 @@ pub mod spec {
     pub open spec fn opt_ref<'a>(o: &'a Option<Doc>) -> Option<&'a Doc> {
         match o { Some(d) => Some(d), None => None }
     }
+    #[cfg(not(feature = "docgen"))]
     pub open spec fn help_item_of<'a>(item: &'a Item) -> HelpItem<'a> {
         match item {
             Item::Positional { metavar, help } => HelpItem::Positional { metavar: *metavar, help: opt_ref(help) },
             Item::Command { name, short, help, meta, info } => HelpItem::Command { name: *name, short: *short, help: opt_ref(help), meta: &**meta },
+            Item::Flag { name, env, help, shorts } => HelpItem::Flag { name: *name, env: *env, help: opt_ref(help) },
+            Item::Argument { name, metavar, env, help, shorts } => HelpItem::Argument { name: *name, metavar: *metavar, env: *env, help: opt_ref(help) },
+            Item::Any { metavar, anywhere, help } => HelpItem::Any { metavar: metavar, anywhere: *anywhere, help: opt_ref(help) },
+        }
+    }
+    #[cfg(feature = "docgen")]
+    pub open spec fn help_item_of<'a>(item: &'a Item) -> HelpItem<'a> {
+        match item {
+            Item::Positional { metavar, help } => HelpItem::Positional { metavar: *metavar, help: opt_ref(help) },
+            Item::Command { name, short, help, meta, info } => HelpItem::Command { name: *name, short: *short, help: opt_ref(help), meta: &**meta, info: &**info },
             Item::Flag { name, env, help, shorts } => HelpItem::Flag { name: *name, env: *env, help: opt_ref(help) },
             Item::Argument { name, metavar, env, help, shorts } => HelpItem::Argument { name: *name, metavar: *metavar, env: *env, help: opt_ref(help) },
             Item::Any { metavar, anywhere, help } => HelpItem::Any { metavar: metavar, anywhere: *anywhere, help: opt_ref(help) },
@@ -375,6 +386,56 @@ pub mod spec {
     }
     pub open spec fn first_posword(items: Seq<Arg>, j: int) -> bool {
         0 <= j < items.len() && items[j] is PosWord && forall|i: int| 0 <= i < j ==> !(#[trigger] items[i] is PosWord)
+    }
+
+    /// C16 "describe every command level reachable through subcommands": the section of a level followed, for every visible command
+    /// of that level in order, by the sections of that command (path extended by its name). Paths are compared by their text.
+    #[cfg(feature = "docgen")]
+    pub open spec fn levels<'a>(meta: &'a Meta, info: &'a Info, path: Seq<Seq<char>>) -> Seq<(Seq<Seq<char>>, &'a Info, &'a Meta)> {
+        seq![(path, info, meta)] + levels_in(meta, path)
+    }
+    #[cfg(feature = "docgen")]
+    pub open spec fn levels_in<'a>(m: &'a Meta, path: Seq<Seq<char>>) -> Seq<(Seq<Seq<char>>, &'a Info, &'a Meta)>
+        decreases m, 1int,
+    {
+        match m {
+            Meta::And(xs) | Meta::Or(xs) => levels_in_upto(m, xs.len() as int, path),
+            Meta::Adjacent(x) | Meta::Subsection(x, _) | Meta::Suffix(x, _) | Meta::CustomUsage(x, _) | Meta::Required(x) | Meta::Optional(x) | Meta::Many(x) | Meta::Strict(x) => levels_in(&**x, path),
+            Meta::Item(i) => match &**i {
+                Item::Command { name, meta, info, .. } => seq![(path.push(name@), &**info, &**meta)] + levels_in(&**meta, path.push(name@)),
+                _ => Seq::empty(),
+            },
+            Meta::Skip => Seq::empty(),
+        }
+    }
+    #[cfg(feature = "docgen")]
+    pub open spec fn levels_in_upto<'a>(m: &'a Meta, n: int, path: Seq<Seq<char>>) -> Seq<(Seq<Seq<char>>, &'a Info, &'a Meta)>
+        decreases m, 0int, n,
+        when *m is And || *m is Or
+    {
+        let xs = meta_children(*m);
+        if n <= 0 || n > xs.len() { Seq::empty() } else { levels_in_upto(m, n - 1, path) + levels_in(&xs[n - 1], path) }
+    }
+    /// sections contributed by one help entry (only command entries contribute)
+    #[cfg(feature = "docgen")]
+    pub open spec fn entry_levels<'a>(h: HelpItem<'a>, path: Seq<Seq<char>>) -> Seq<(Seq<Seq<char>>, &'a Info, &'a Meta)> {
+        match h {
+            HelpItem::Command { name, meta, info, .. } => seq![(path.push(name@), info, meta)] + levels_in(meta, path.push(name@)),
+            _ => Seq::empty(),
+        }
+    }
+    /// sections contributed by the command entries of a help item list, in order
+    #[cfg(feature = "docgen")]
+    pub open spec fn levels_seq<'a>(items: Seq<HelpItem<'a>>, path: Seq<Seq<char>>) -> Seq<(Seq<Seq<char>>, &'a Info, &'a Meta)>
+        decreases items.len(),
+    {
+        if items.len() == 0 { Seq::empty() } else { levels_seq(items.drop_last(), path) + entry_levels(items.last(), path) }
+    }
+    #[cfg(feature = "docgen")]
+    pub open spec fn path_text(p: Seq<String>) -> Seq<Seq<char>> { p.map_values(|s: String| s@) }
+    #[cfg(feature = "docgen")]
+    pub open spec fn sections_text<'a>(v: Seq<DocSection<'a>>) -> Seq<(Seq<Seq<char>>, &'a Info, &'a Meta)> {
+        v.map_values(|d: DocSection<'a>| (path_text(d.path@), d.info, d.meta))
     }
 
     /// both ledgers still have item j
@@ -825,6 +886,73 @@ pub mod lemmas {
         ensures #[trigger] strip(s.push(x)) == strip(s) + (if is_leaf(x) { seq![x] } else { Seq::empty() }),
     {
         assert(s.push(x).drop_last() =~= s);
+    }
+
+    #[cfg(feature = "docgen")]
+    pub proof fn lemma_levels_seq_push<'a>(s: Seq<HelpItem<'a>>, x: HelpItem<'a>, path: Seq<Seq<char>>)
+        ensures levels_seq(s.push(x), path) == levels_seq(s, path) + entry_levels(x, path),
+    {
+        assert(s.push(x).drop_last() =~= s);
+    }
+    #[cfg(feature = "docgen")]
+    pub proof fn lemma_levels_seq_add<'a>(a: Seq<HelpItem<'a>>, b: Seq<HelpItem<'a>>, path: Seq<Seq<char>>)
+        ensures levels_seq(a + b, path) == levels_seq(a, path) + levels_seq(b, path),
+        decreases b.len(),
+    {
+        if b.len() == 0 {
+            assert(a + b =~= a);
+        } else {
+            lemma_levels_seq_add(a, b.drop_last(), path);
+            assert((a + b).drop_last() =~= a + b.drop_last());
+            assert((a + b).last() == b.last());
+        }
+    }
+    /// group / block decorations contribute no section: only the item entries matter
+    #[cfg(feature = "docgen")]
+    pub proof fn lemma_levels_seq_strip<'a>(items: Seq<HelpItem<'a>>, path: Seq<Seq<char>>)
+        ensures levels_seq(items, path) == levels_seq(strip(items), path),
+        decreases items.len(),
+    {
+        if items.len() > 0 {
+            lemma_levels_seq_strip(items.drop_last(), path);
+            if is_leaf(items.last()) {
+                lemma_levels_seq_push(strip(items.drop_last()), items.last(), path);
+                assert(strip(items.drop_last()) + seq![items.last()] =~= strip(items.drop_last()).push(items.last()));
+            } else {
+                assert(strip(items) =~= strip(items.drop_last()));
+            }
+        }
+    }
+    /// the command entries of the item list of a level are exactly the commands `levels_in` descends into
+    #[cfg(feature = "docgen")]
+    pub proof fn lemma_levels_leaves<'a>(m: &'a Meta, path: Seq<Seq<char>>)
+        ensures levels_seq(leaves(m), path) == levels_in(m, path),
+        decreases m, 1int,
+    {
+        match m {
+            Meta::And(xs) | Meta::Or(xs) => { lemma_levels_leaves_upto(m, xs.len() as int, path); }
+            Meta::Adjacent(x) | Meta::Subsection(x, _) | Meta::Suffix(x, _) | Meta::CustomUsage(x, _) | Meta::Required(x) | Meta::Optional(x) | Meta::Many(x) | Meta::Strict(x) => { lemma_levels_leaves(&**x, path); }
+            Meta::Item(i) => {
+                if !helpless_positional(**i) {
+                    lemma_levels_seq_push(Seq::empty(), help_item_of(&**i), path);
+                    assert(Seq::<HelpItem>::empty().push(help_item_of(&**i)) =~= seq![help_item_of(&**i)]);
+                }
+            }
+            Meta::Skip => {}
+        }
+    }
+    #[cfg(feature = "docgen")]
+    pub proof fn lemma_levels_leaves_upto<'a>(m: &'a Meta, n: int, path: Seq<Seq<char>>)
+        requires *m is And || *m is Or,
+        ensures levels_seq(leaves_upto(m, n), path) == levels_in_upto(m, n, path),
+        decreases m, 0int, n,
+    {
+        let xs = meta_children(*m);
+        if n > 0 && n <= xs.len() {
+            lemma_levels_leaves_upto(m, n - 1, path);
+            lemma_levels_leaves(&xs[n - 1], path);
+            lemma_levels_seq_add(leaves_upto(m, n - 1), leaves(&xs[n - 1]), path);
+        }
     }
 
     /// marking conflicts keeps the ledger well formed and consumption monotone
@@ -2209,6 +2337,73 @@ verif_it:
                         invariant
                             (*meta is And || *meta is Or) && meta_children(*meta) == xs@,
                             strip(hi.items@) == strip(old(hi).items@) + leaves_upto(meta, verif_it.index@ as int),
+//@@ end
+
+
+// ---- documentation sections (C16; feature = "docgen" only)
+//@@ type src/buffer.rs | struct DocSection
+//@@ unit buffer.DocSection tags=
+//@@ end
+
+impl<'a> HelpItems<'a> {
+    /// #[derive(Default)] (T6): an empty item list
+    #[verifier::external_body]
+    pub fn default() -> (r: Self)
+        ensures r.items@.len() == 0,
+    { unimplemented!() }
+}
+
+//@@ fn src/meta_help.rs | impl HelpItems | fn append_meta
+//@@ unit meta_help.HelpItems.append_meta tags=C12,C16 hoist_nested
+//@@ spec
+        ensures strip(final(self).items@) == strip(old(self).items@) + leaves(meta), // #delegates_to_go
+//@@ end
+
+//@@ fn src/buffer.rs | fn extract_sections
+//@@ unit buffer.extract_sections tags=C16 loops=1
+//@@ attr
+#[verifier::exec_allows_no_decreases_clause]
+//@@ spec
+        ensures
+            sections_text(final(sections)@) == sections_text(old(sections)@) + levels(meta, info, path_text(old(path)@)), // #every_reachable_level_once_in_order
+            path_text(final(path)@) == path_text(old(path)@), // #path_restored
+//@@ insert after 1 `for item in`
+verif_it:
+//@@ loop 1
+        invariant
+            verif_it.index@ <= hi.items@.len(),
+            strip(hi.items@) == leaves(meta),
+            path_text(path@) == path_text(old(path)@),
+            sections_text(sections@) == sections_text(old(sections)@) + seq![(path_text(old(path)@), info, meta)]
+                + levels_seq(hi.items@.subrange(0, verif_it.index@ as int), path_text(old(path)@)),
+//@@ insert before 1 `let mut hi = HelpItems::default();`
+proof {
+    assert(sections@ =~= old(sections)@.push(sections@.last()));
+    assert(sections_text(sections@) =~= sections_text(old(sections)@) + seq![(path_text(old(path)@), info, meta)]);
+}
+//@@ loopbody 1
+proof {
+    let idx = verif_it.index@ as int;
+    assert(hi.items@.subrange(0, idx + 1) =~= hi.items@.subrange(0, idx).push(hi.items@[idx]));
+    lemma_levels_seq_push(hi.items@.subrange(0, idx), hi.items@[idx], path_text(old(path)@));
+}
+let ghost g_path = path@; let ghost g_sections = sections@;
+//@@ insert after 1 `path.push((*name).to_string());`
+proof { assert(path_text(path@) =~= path_text(g_path).push(name@)); }
+//@@ insert before 1 `path.pop();`
+let ghost g_before_pop = path@;
+//@@ insert after 1 `path.pop();`
+proof {
+    assert(path@ =~= g_before_pop.drop_last());
+    assert(path_text(path@) =~= path_text(g_before_pop).drop_last());
+    assert(path_text(path@) =~= path_text(g_path));
+}
+//@@ postloop 1
+proof {
+    assert(hi.items@.subrange(0, hi.items@.len() as int) =~= hi.items@);
+    lemma_levels_seq_strip(hi.items@, path_text(old(path)@));
+    lemma_levels_leaves(meta, path_text(old(path)@));
+}
 //@@ end
 
 // ---- adjacent groups (C19)
